@@ -172,6 +172,18 @@ func runGroup(c *mon.Ctx, g *groups.Group) {
 					r := g.Rep(p.p, op.In[k], z)
 					rec(k+1, append(pts[:k:k], p), append(reps[:k:k], r), fmt.Sprintf("%s/z%d", zlabel, zi))
 				}
+				// the identity as the zero value of the type (all coordinates 0): what `var p G1Jac` and several library
+				// routines (MultiExp of a vanishing sum) produce; Z = 0 makes it the identity like any other representative.
+				// Not used for the curve / subgroup predicates, which are only demanded on well-formed representatives.
+				if p.p.Inf && (op.In[k] == "jac" || op.In[k] == "ext") && op.Sem != "oncurve" && op.Sem != "insubgroup" {
+					r := g.Rep(p.p, op.In[k], f.One())
+					for ci := range r.C {
+						r.C[ci] = f.Zero()
+					}
+					pz := p
+					pz.cls = "O(zero-value)"
+					rec(k+1, append(pts[:k:k], pz), append(reps[:k:k], r), zlabel+"/zero-value")
+				}
 			}
 		}
 		rec(0, nil, nil, "")
